@@ -44,3 +44,11 @@ for K in INST_CLASSES:
 contract(E + "Nothing.validators", requires="True",
          returns="is_list(result) and len(result) == 1 and type_is(result[0], NoMatch)", result_kind="list", ghost={"result_fresh": True},
          props=["C01", "C08"])
+
+ITEMS = "statham.schema.elements.items:"
+PROPS = "statham.schema.elements.properties:"
+
+for K in ["Element", "String", "Integer", "Number", "Boolean", "Null", "Array", "Not", "AnyOf", "OneOf", "AllOf"]:
+    contract(E + "Element.__items__", inst=K, requires="elem_wf(self)",
+             returns="type_is(result, Items)", ghost={"result_fresh": True}, result_cls="Items",
+             props=["C01", "C04", "C08", "C13", "C14"])
